@@ -208,7 +208,7 @@ def _signature(h, si, spec):
 
 def _both(ctx, strength):
     rnd = random.Random(ctx.seed)
-    n_rand, length = (24, 12) if strength == "thorough" else (4, 10)
+    n_rand, length = (12, 12) if strength == "thorough" else (4, 10)
     hs = [list(h) for h in LEADS] + [gen_history(rnd, rnd.randint(6, length)) for _ in range(n_rand)]
     specs, order = [], []
     for hi, h in enumerate(hs):
@@ -218,8 +218,9 @@ def _both(ctx, strength):
     env = {"OMP_WAIT_POLICY": "passive"}
     jobs = [("replay", {"mode": "replay", "histories": hs}), ("fresh", {"mode": "fresh", "specs": specs, "emulate": True})]
     # truly fresh interpreters validate the hand-reset emulation (a sample in the quick tier)
-    sample = list(range(len(specs))) if strength == "thorough" else [i for i, s in enumerate(specs)
-                                                                     if s["kind"] in ("KDense", "KFmm")][:2]
+    # (every truly fresh interpreter pays the full JIT warm-up: 6 of them in the thorough tier, 2 in the quick one)
+    pick = [i for i, s in enumerate(specs) if s["kind"] in ("KDense", "KFmm")]
+    sample = sorted(set((pick[:3] + pick[-3:]) if strength == "thorough" else pick[:2]))
     for i in sample:
         jobs.append(("true%d" % i, {"mode": "fresh", "specs": [specs[i]], "emulate": False}))
     with ThreadPoolExecutor(max_workers=4 if strength != "thorough" else 6) as ex:
